@@ -69,6 +69,11 @@ class EOF(Leaf):
         _ = lean
         return '$'
 
+    @cached_property
+    def _nullable(self) -> bool:
+        # NOTE: at the end of the text `$` succeeds without consuming anything
+        return True
+
 
 @nodedataclass
 class EOL(Leaf):
